@@ -160,6 +160,13 @@ fn get_text_edit_range_in_string(
         end_offset -= 1;
     }
 
+    // the replaced range has to contain the cursor: behind the closing quote (or in front of the
+    // opening one) there is no string content to complete
+    let cursor_offset = u32::from(builder.position_offset);
+    if cursor_offset < start_offset || cursor_offset > end_offset {
+        return None;
+    }
+
     let new_text_range = TextRange::new(start_offset.into(), end_offset.into());
 
     builder
